@@ -145,6 +145,8 @@ def core_variants():
     add('r_prefix', 'r', NOREJ, ['prefix="foo"', 'yylineno'])
     add('cxx_prefix', 'cxx', NOREJ, ['prefix="foo"'])
     add('nr_prefix2', 'nr', NOREJ, ['prefix="bar"', 'yylineno'])
+    add('nr_prefix_tables', 'nr', NOREJ, ['prefix="foo"', 'tables-file="lex.tables"'], tables=True)
+    add('r_prefix_tables', 'r', NOREJ, ['prefix="foo"', 'tables-file="lex.tables"'], tables=True)
     add('r_bison', 'r', NOREJ, ['bison-bridge', 'bison-locations'])
     add('nr_bison', 'nr', NOREJ, ['bison-bridge'])
     add('r_bison_b', 'r', NOREJ, ['bison-bridge'])
